@@ -301,3 +301,89 @@ func verifHarness_C04_cursor() {
 	verifAssert(verifSameInts(p.tr.ev, verifOnion(chain, nexts)), "onion order on a long chain")
 	verifCover("C04 long chain")
 }
+
+// Long flat chains (round 14, C04-I): 60..70 handlers in total, built from
+// global, group and route middleware, nobody calls Next() — the outer loop of
+// Next alone walks the whole chain.  These chains are accepted by
+// registration (the limit counts group + route handlers only) and involve no
+// nested cursor growth, so they lie outside the known D8/D9 class.
+func verifHarness_C04_longFlat() {
+	n := []int{61, 62, 63, 64, 65, 70}[verifChoice("n", 6)] // handlers in total (fewer when registration's own limit caps the route part)
+	g := []int{0, 2, 8, 9}[verifChoice("globals", 4)]
+	grp := verifChoice("groupMw", 2)
+	p := &verifProg{nexts: map[int]int{0: 0}}
+	r := New()
+	gh, gids := p.mk(g)
+	if g > 0 {
+		r.Use(gh...)
+	}
+	gm, gmids := p.mk(grp)
+	nmw := n - g - grp - 1
+	if grp+nmw+1 > 62 { // registration accepts group + route + main handlers up to 62
+		nmw = 61 - grp
+	}
+	mh, mids := p.mk(nmw)
+	m, mid := p.mk(1)
+	r.Group("/g", func() {
+		r.GET("/x", m[0], mh...)
+	}, gm...)
+	chain := verifCat(gids, gmids, mids, mid)
+	nexts := make([]int, len(chain))
+	k := verifCatch(func() { r.ServeHTTP(verifNewWriter(), verifRequest("GET", "/g/x")) })
+	verifAssert(k == "", "no panic on a long flat chain")
+	verifAssert(verifSameInts(p.tr.ev, verifOnion(chain, nexts)), "every handler of a long chain runs once, in order, when nobody calls Next()")
+	verifCover("C04 long flat chain")
+}
+
+// Middleware added between two requests (round 14, C04-J): Route.Use and
+// Router.Use after the route has already served a request take effect for the
+// next request — the chain is composed per request from the current lists.
+func verifHarness_C04_useBetweenRequests() {
+	g := verifChoice("globals", 3)
+	rm := verifChoice("routeMw", 3)
+	lateRoute := verifChoice("lateRouteUse", 3)
+	lateGlobal := verifChoice("lateGlobalUse", 2)
+	grp := verifChoice("inGroup", 2)
+	p := &verifProg{nexts: map[int]int{0: 1}}
+	r := New()
+	gh, gids := p.mk(g)
+	if g > 0 {
+		r.Use(gh...)
+	}
+	mh, mids := p.mk(rm)
+	m, mid := p.mk(1)
+	var route *Route
+	var gmids []int
+	path := "/x"
+	if grp == 1 {
+		gm, ids := p.mk(1)
+		gmids = ids
+		r.Group("/g", func() { route = r.GET("/x", m[0], mh...) }, gm...)
+		path = "/g/x"
+	} else {
+		route = r.GET("/x", m[0], mh...)
+	}
+	serve := func(chain []int, what string) {
+		p.tr.ev = nil
+		nexts := make([]int, len(chain))
+		for i := range nexts {
+			nexts[i] = 1
+		}
+		k := verifCatch(func() { r.ServeHTTP(verifNewWriter(), verifRequest("GET", path)) })
+		verifAssert(k == "", "no panic")
+		verifAssert(verifSameInts(p.tr.ev, verifOnion(chain, nexts)), what)
+	}
+	serve(verifCat(gids, gmids, mids, mid), "onion order on the first request")
+	lh, lids := p.mk(lateRoute)
+	if lateRoute > 0 {
+		route.Use(lh...)
+	}
+	lg, lgids := p.mk(lateGlobal)
+	if lateGlobal > 0 {
+		r.Use(lg...)
+	}
+	want := verifCat(gids, lgids, gmids, mids, lids, mid)
+	serve(want, "middleware added by Route.Use / Router.Use after a request runs on the next request, in onion order")
+	serve(want, "and on the request after that")
+	verifCover("C04 use between requests")
+}
